@@ -45,7 +45,7 @@ TABLES = [
     [['k', 'a,b', 'q"r'], ['m', ' lead', 'trail '], ['n', '', 'é€']],
     [['k', 'one', 'two']],
 ]
-SPECIAL = {'nl': [['k', 'l1\nl2', 'x'], ['m', 'plain', 'y']], 'tab': [['k', 'p\tq', 'x'], ['m', 'plain', 'y']]}
+SPECIAL = {'nl': [['k', 'l1\nl2', 'x'], ['m', 'plain', 'y']], 'tab': [['k', 'p\tq', 'x'], ['m', 'plain', 'y']], 'latin': [['k', 'caf\xe9', '\xff\xe0'], ['m', 'plain', '\xa0x']]}
 B = [['k', 'J1'], ['m', 'J2'], ['k', 'J3']]
 NAMES = ['name', 'val', 'third']
 BNAMES = ['jk', 'jv']
@@ -242,7 +242,12 @@ CLI_CFGS = [
     (';', None, 'csv', (';', 'quoted'), (',', 'quoted')),
     (',', None, 'tsv', (',', 'quoted'), ('\t', 'simple')),
     ('|', None, 'input', ('|', 'simple'), ('|', 'simple')),
+    (',', None, 'input', (',', 'quoted'), (',', 'quoted'), 'latin-1'),
 ]
+
+
+def cfg_enc(cfg):
+    return cfg[5] if len(cfg) > 5 else 'utf-8'
 
 
 def cli_expect_and_check(res, ep, q, text, A, hdr, exp, rc, out_bytes, err_bytes, cfg, extra):
@@ -267,7 +272,7 @@ def cli_expect_and_check(res, ep, q, text, A, hdr, exp, rc, out_bytes, err_bytes
     if any(not l.startswith('Warning: ') for l in errlines):
         res.violation('cli-stderr-not-only-warnings', case, 'only Warning: lines', stderr[:300])
         return
-    lines = refcsv.ref_read(out_bytes.decode('utf-8'), odlm, opol).records
+    lines = refcsv.ref_read(out_bytes.decode(cfg_enc(cfg)), odlm, opol).records
     gh = None
     if exp.header is not None:
         gh, lines = (lines[0] if lines else None), lines[1:]
@@ -284,12 +289,12 @@ def run_cli_inprocess(res, q, A, hdr, exp, cfg, scratch, via_stdin):
     from rbql import rbql_main
     ddlm, dpol = cfg[3]
     p1, p2, po = [os.path.join(scratch, n) for n in ('t1.csv', 't2.csv', 'out.csv')]
-    with open(p1, 'w', newline='', encoding='utf-8') as f:
+    with open(p1, 'w', newline='', encoding=cfg_enc(cfg)) as f:
         f.write(refcsv.ref_write(([NAMES] if hdr else []) + A, ddlm, dpol))
-    with open(p2, 'w', newline='', encoding='utf-8') as f:
+    with open(p2, 'w', newline='', encoding=cfg_enc(cfg)) as f:
         f.write(refcsv.ref_write(([BNAMES] if hdr else []) + B, ddlm, dpol))
     text = render(q, p2)
-    argv = ['rbql', '--query', text, '--delim', cfg[0], '--out-format', cfg[2]]
+    argv = ['rbql', '--query', text, '--delim', cfg[0], '--out-format', cfg[2]] + (['--encoding', cfg_enc(cfg)] if cfg_enc(cfg) != 'utf-8' else [])
     if cfg[1]:
         argv += ['--policy', cfg[1]]
     if hdr:
@@ -299,7 +304,7 @@ def run_cli_inprocess(res, q, A, hdr, exp, cfg, scratch, via_stdin):
     saved = (sys.argv, sys.stdin, sys.stdout, sys.stderr)
     if via_stdin:
         with open(p1, 'rb') as f:
-            fake_in = io.TextIOWrapper(io.BytesIO(f.read()), encoding='utf-8')
+            fake_in = io.TextIOWrapper(io.BytesIO(f.read()), encoding='utf-8')     # the CLI re-wraps stdin.buffer with its own --encoding
     else:
         argv += ['--input', p1, '--output', po]
         fake_in = io.TextIOWrapper(io.BytesIO(b''), encoding='utf-8')
@@ -332,12 +337,12 @@ def run_cli_inprocess(res, q, A, hdr, exp, cfg, scratch, via_stdin):
 def run_cli_subprocess(res, q, A, hdr, exp, cfg, scratch, via_stdin):
     ddlm, dpol = cfg[3]
     p1, p2, po = [os.path.join(scratch, n) for n in ('t1.csv', 't2.csv', 'out.csv')]
-    with open(p1, 'w', newline='', encoding='utf-8') as f:
+    with open(p1, 'w', newline='', encoding=cfg_enc(cfg)) as f:
         f.write(refcsv.ref_write(([NAMES] if hdr else []) + A, ddlm, dpol))
-    with open(p2, 'w', newline='', encoding='utf-8') as f:
+    with open(p2, 'w', newline='', encoding=cfg_enc(cfg)) as f:
         f.write(refcsv.ref_write(([BNAMES] if hdr else []) + B, ddlm, dpol))
     text = render(q, p2)
-    argv = [sys.executable, '-m', 'rbql', '--query', text, '--delim', cfg[0], '--out-format', cfg[2]]
+    argv = [sys.executable, '-m', 'rbql', '--query', text, '--delim', cfg[0], '--out-format', cfg[2]] + (['--encoding', cfg_enc(cfg)] if cfg_enc(cfg) != 'utf-8' else [])
     if cfg[1]:
         argv += ['--policy', cfg[1]]
     if hdr:
@@ -386,6 +391,8 @@ def table_ok_for(A, cfg):
     odlm, opol = cfg[4]
     for r in A:
         for c in r:
+            if cfg_enc(cfg) == 'latin-1' and any(ord(ch) > 255 for ch in c):
+                return False
             if pol != 'quoted_rfc' and ('\n' in c or '\r' in c):
                 return False
             if opol != 'quoted_rfc' and ('\n' in c):
@@ -416,7 +423,7 @@ def run_shard(sh):
                 res.transitions += 6
             elif sh['part'] == 'cli_in':
                 for ci, cfg in enumerate(CLI_CFGS):
-                    tabs = [A] + ([SPECIAL['nl']] if cfg[1] == 'quoted_rfc' else []) + ([SPECIAL['tab']] if cfg[0] == 'TAB' else [])
+                    tabs = [A] + ([SPECIAL['nl']] if cfg[1] == 'quoted_rfc' else []) + ([SPECIAL['tab']] if cfg[0] == 'TAB' else []) + ([SPECIAL['latin']] if cfg_enc(cfg) == 'latin-1' else [])
                     for T in tabs:
                         if not table_ok_for(T, cfg):
                             continue
@@ -432,6 +439,8 @@ def run_shard(sh):
                     T = SPECIAL['nl']
                 if cfg[0] == 'TAB' and idx % 2 == 0:
                     T = SPECIAL['tab']
+                if cfg_enc(cfg) == 'latin-1':
+                    T = SPECIAL['latin']
                 if table_ok_for(T, cfg):
                     e2 = exp if T is A else expected(q, T, hdr)
                     run_cli_subprocess(res, q, T, hdr, e2, cfg, scratch, via_stdin=(idx // len(CLI_CFGS)) % 2 == 0)
@@ -463,7 +472,7 @@ def main(tier, seed):
         rule='34 queries x 3 tables x {header, no header} (+ named-column queries) through 6 library entry points (query_table, query with Table* classes, query with own plain classes, query_csv, pandas, sqlite->csv), '
              'the CLI in-process under 6 configurations x {file, stdin->stdout} with special-cell tables for explicit policies, and real `python -m rbql` subprocesses rotating over all configurations; non-trivial = a successful run that agrees with RefQL',
         assumptions=['results are compared after str(); expressions are type-agnostic over string cells', 'child processes run with PYTHONWARNINGS=ignore (Python 3.12 prints its own SyntaxWarning when compiling rbql_engine.py from source)'],
-        extra={'cli_configurations': [c[:3] for c in CLI_CFGS]},
+        extra={'cli_configurations': [list(c[:3]) + [cfg_enc(c)] for c in CLI_CFGS]},
         min_features={'ep_query_table': 100, 'ep_query_custom_classes': 100, 'ep_query_csv': 100, 'ep_pandas': 100, 'ep_sqlite_to_csv': 50, 'ep_cli_inprocess_file': 300, 'ep_cli_inprocess_stdin': 300,
                       'ep_cli_subprocess_file': 30, 'ep_cli_subprocess_stdin': 30, 'cli_failures_ok': 20, 'failing_agree': 20})
 
